@@ -541,6 +541,10 @@ impl<'a, 'b> G<'a, 'b> {
 
     fn element(&mut self, depth: usize) -> String {
         let (tag, comp) = self.tag();
+        // any tag text one of the pattern pools could match (conservative for C14)
+        if tag.contains("el") || tag.starts_with("i-") || tag.starts_with("my-") || tag.contains(':') {
+            self.f.custom_tag = true;
+        }
         let nattrs = self.c.weighted(&[4, 5, 4, 3, 2, 1]);
         let mut names: Vec<String> = vec![];
         let mut s = format!("<{tag}");
@@ -551,8 +555,25 @@ impl<'a, 'b> G<'a, 'b> {
                 if names.contains(&n) {
                     self.f.spread_or_repeat = true;
                 }
-                if n.starts_with("v-model") || n == "vModel" {
+                if n.starts_with("v-model") || n.starts_with("vModel") {
                     had_vmodel = true;
+                }
+                // props a directive synthesises count as written names
+                let low = n.to_ascii_lowercase();
+                if low.starts_with("v-html") || low.starts_with("vhtml") {
+                    if names.contains(&"innerHTML".to_string()) {
+                        self.f.spread_or_repeat = true;
+                    }
+                    names.push("innerHTML".into());
+                }
+                if low.starts_with("v-text") || low.starts_with("vtext") {
+                    if names.contains(&"textContent".to_string()) {
+                        self.f.spread_or_repeat = true;
+                    }
+                    names.push("textContent".into());
+                }
+                if names.contains(&n) {
+                    self.f.spread_or_repeat = true;
                 }
                 names.push(n);
             }
@@ -730,8 +751,13 @@ impl<'a, 'b> G<'a, 'b> {
         let n = self.c.weighted(&[3, 6, 3, 2, 1]);
         let mut s = String::new();
         let mut kinds = vec![];
+        let mut last_text = false;
         for _ in 0..n {
-            let k = self.c.weighted(&[4, 5, 4, 1, 1, 1, 2]);
+            let mut k = self.c.weighted(&[4, 5, 4, 1, 1, 1, 2]);
+            if (k == 0 || k == 6) && last_text {
+                k = 4; // adjacent text runs would merge: separate them
+            }
+            last_text = k == 0 || k == 6;
             kinds.push(k);
             match k {
                 0 => s.push_str(self.c.choose(&["text", " spaced out ", "\n  line\n  two\n", "a&amp;b", "&nbsp;", " "])),
@@ -775,6 +801,11 @@ impl<'a, 'b> G<'a, 'b> {
                 5 => s.push_str("{...xs}"),
                 _ => s.push_str("\n  "),
             }
+        }
+        // effective children: empty expressions, comments and line-break whitespace vanish
+        let eff: Vec<&usize> = kinds.iter().filter(|k| matches!(**k, 0 | 1 | 2 | 5)).collect();
+        if comp && eff.len() == 1 && *eff[0] == 1 {
+            self.f.sole_ident_or_call_child = true;
         }
         s
     }
